@@ -225,11 +225,24 @@ class GateAnalysis:
                 continue
             if not r.in_loop:
                 return True
-            # a read inside a per-instance loop happens only if the loop runs
+            # a read inside a per-instance loop happens only if the loop runs: on a path that has decided
+            # "there is no copy" (not 0 < count) the copy's line is never consulted
+            counts = set()
+            def walk(x):
+                if isinstance(x, E):
+                    if x.op == 'idx':
+                        counts.add(repr(x.args[1]))
+                    for a in x.args:
+                        walk(a)
+                elif isinstance(x, (list, tuple)):
+                    for a in x:
+                        walk(a)
+            walk(r.parts)
+            empty = False
             for (c, pol, _n, _r) in p.guards:
-                if isinstance(c, E) and c.op in ('exists_n',) and pol:
-                    return True
-                if isinstance(c, E) and c.op == 'lt' and c.args[0] == 0 and pol:
-                    return True
+                if isinstance(c, E) and c.op == 'lt' and c.args[0] == 0 and not isinstance(c.args[0], bool) and not pol and repr(c.args[1]) in counts:
+                    empty = True
+            if empty:
+                continue
             return True
         return False
